@@ -8,7 +8,7 @@ TRUST = ("Trusted base: the independent reference implementations in /verif/inte
 
 CHECKS = {
  "C08": dict(cat="exploration", tech="Go race detector + poisoned quarantine pool + seeded scheduling perturbation at hook sites + hook event log checked offline (FIFO, exactly-once) + in-process deadlock monitor + goroutine census, on the real concurrent Writer and Reader",
-   text="1500 (quick) / 30000 (thorough) pipeline runs in the -race build with the verif hooks on. Race reports are parsed from the detector's logs and de-duplicated; released block buffers are poisoned, quarantined and re-verified (write after release), poison in output is read after release, double releases are recorded; the ordering goroutine's event order is compared with the submit order; output bytes are compared with the sequential Writer's; deadlock and leaks are decided from goroutine states. Interleavings are sampled: the evidence reports the number of distinct ones observed.",
+   text="1500 (quick) / 30000 (thorough) pipeline runs in the -race build with the verif hooks on. Race reports are parsed from the detector's logs and de-duplicated; released block buffers are poisoned, quarantined and re-verified (write after release), poison in output is read after release, double releases are recorded; the ordering goroutine's event order is compared with the submit order; output bytes are compared with the sequential Writer's; deadlock and leaks are decided from goroutine states, runaway loops from a bound on the hook sites one call passes. Writer runs vary content/block checksums, legacy frames and content sizes (one with a zero header checksum byte); Reader runs include corrupt blocks, failing sources and a Reset while the pipeline of the previous frame is still running. Interleavings are sampled: the evidence reports the number of distinct ones observed.",
    ref="6/C08"),
  "C14": dict(cat="exploration", tech="differential runtime monitoring of the real compressors under real histories (fresh vs reused vs pooled objects, failed calls, related inputs, concurrent pool churn) and of the real Writer across concurrency levels, schedules (perturbation hooks), poisoned pools and Write partitions, in plain and -race builds",
    text="Block half: every (source, depth, destination size) output of a fresh object is compared byte for byte with the same call after six kinds of history and from the package pools under goroutine churn. Frame half (-race build, poison pool, perturbation): sink bytes for concurrency {1,2,4,16} x 5 partition styles (and ReadFrom x 4 source fragmentation modes) must equal one Write at concurrency 1.",
@@ -32,10 +32,10 @@ CHECKS = {
    text="Every cut position 1..len-1 of 26 small seed frames (all option combinations that change the layout, legacy, dependent blocks, a skippable frame in front; half of the readers get a source that also implements io.Seeker) is executed against Readers with concurrency {1,2,4} through Read (buffered and direct) and WriteTo: no clean end of stream, delivered bytes are a prefix. For the three large frames cuts are enumerated at every field boundary +-3 plus seeded interior positions.",
    ref="6/C06"),
  "C07": dict(cat="exploration", tech="hostile-input stress in child processes with monitors: panic recovery, process-death classification (stack overflow, fault), step budgets (runaway loop), allocation-profile monitor (runtime.MemProfile at rate 1: size of every allocation made directly by library code), goroutine-stack growth monitor, first-word classifier, exact-skip check",
-   text="Random, mutated and grammar-built hostile streams and 10M-fold repetitions of a single field are fed to real Readers (concurrency 1 and 4, Read and WriteTo) inside child processes; a child that dies is itself the observation. Liveness is restated as bounded progress on finite budgeted sources. No allocation made directly by library code may exceed 2 x the block maximum the input itself declares + 256 KiB; goroutine stacks may not grow by more than 64 MiB (recursion proportional to the input); peak RSS is recorded as an observation only.",
+   text="Random, mutated and grammar-built hostile streams and 10M-fold repetitions of a single field are fed to real Readers (concurrency 1 and 4, Read and WriteTo) inside child processes; a child that dies is itself the observation. Liveness is restated as bounded progress on finite budgeted sources. No allocation made directly by library code may exceed 2 x the block maximum the input itself declares + 256 KiB; goroutine stacks may not grow by more than 64 MiB (recursion proportional to the input); peak RSS is recorded as an observation only. WriteTo destinations rotate between a bare writer, a destination with the optional Grow method that records what it is asked to reserve (same bound) and a real bytes.Buffer (reservations through Grow are attributed to the library).",
    ref="6/C07"),
  "C17": dict(cat="exploration", tech="model-based runtime monitoring of call histories: exhaustive enumeration of all call sequences up to length 4 (thorough 5) over parameterised Writer and Reader alphabets plus seeded long and directed sequences, executed on the real objects under an executable lifecycle model, an in-process state-based deadlock monitor, budgeted sinks/sources and differential replay on fresh objects",
-   text="170k histories (quick) are executed on sequential and concurrent objects. The model asserts only the clauses of the property; deadlock is decided from goroutine states (every goroutine inside the library parked, none runnable), runaway loops from call budgets. Sequences beyond the bound are sampled.",
+   text="170k histories (quick) are executed on sequential and concurrent objects. The model asserts only the clauses of the property; deadlock is decided from goroutine states (every goroutine inside the library parked, none runnable), runaway loops from call budgets and from a bound on the hook sites one call passes. Every history ends with an unjudged clean-up Close / drain (a hang there is reported). Sequences beyond the bound are sampled.",
    ref="6/C17"),
  "C01": dict(cat="exploration", tech="differential runtime monitoring: every compressor entry point (package function, fresh, long-lived reused object incl. failed calls in its history; fast and HC at 17 depths) on a class-structured seeded source stream, decoded by the library and by an independent reference decoder",
    text="Real compress/decompress executions over sources built to hit the anchored mechanisms (window edge 65534..65537 with dense runs so the scan reaches it, 16-bit table aliasing beyond 64 KiB, multi-byte length codes, tails around the 14-byte limit, all strings over {a,b} up to length 12/17, sizes to 4 MiB); the evidence counts what the emitted blocks actually contained (offset 65535, matches after 64 KiB, multi-byte lengths). Held on the executions observed; inputs are sampled.",
@@ -56,7 +56,7 @@ CHECKS = {
    text="Two builds of the same worker, same seed, ~2M joined records (quick); any differing outcome, length or byte hash is a violation. amd64 assembly vs portable Go only.",
    ref="6/C12"),
  "C02": dict(cat="exploration", tech="round-trip monitoring through the real Writer and Reader over the full option product (256 configurations x rotated/all levels) x input classes x 4 delivery modes x 4 reader concurrencies x 4 read modes, with budgeted sinks/sources (runaway-loop detector)",
-   text="Every accepted option combination is executed; inputs sit on block boundaries and include crafted zero-checksum contents; each emitted stream is decoded by fresh Readers through WriteTo and Read with buffered/direct/mixed buffer sequences. Held on the executions observed (about 50k reader runs quick).",
+   text="Every accepted option combination is executed; inputs sit on block boundaries and include crafted zero-checksum contents (block, content and header checksum) and flushed message streams in which a block's size word equals the number of bytes decoded so far; each emitted stream is decoded by fresh Readers through WriteTo and Read with buffered/direct/mixed buffer sequences. Held on the executions observed (about 50k reader runs quick).",
    ref="6/C02"),
  "C09": dict(cat="exploration", tech="online oracle: independent LZ4 frame parser + strict-writer conformance rules (block checksum over stored bytes per the specification) on every stream the real Writer emits",
    text="Same write stream as C02; the sink bytes are parsed by the independent implementation (magic, descriptor bits, header checksum, block size limits, strict block validity, block checksum domain, end mark, content checksum, no trailing bytes, legacy layout) and compared with the configuration and the input. Required observations: stored blocks, empty stored block, zero-valued block and content checksums, multi-block frames.",
